@@ -248,6 +248,12 @@ func c04Decode(c int) (c04Cfg, faultPlan) {
 	if v&4 != 0 {
 		cfg.seg = 2
 	}
+	if at >= 4 && (kind == fkHookFail || kind >= fkStoreCommit) {
+		// indices beyond the sync's length would be idle: use them for the
+		// same faults on a first sync that runs to the start of the chain
+		cfg.preSynced = 0
+		at -= 4
+	}
 	return cfg, faultPlan{kind: kind, at: at, arg: 3 + at*7}
 }
 
@@ -376,6 +382,7 @@ func runFaultSync(r *simkit.Run, c Cfg, mode string, planner planFunc) {
 	ev0 := len(sw.events)
 	hook0 := len(sub.Hooks())
 	req1start := len(w.Net.Requests())
+	hookFail0 := r.Faults()["hook-fail"]
 	a1 := trigger(head, !cfg.announce, "faulty")
 	out := settle(a1, !cfg.announce, ev0)
 	sw.pump()
@@ -420,6 +427,9 @@ func runFaultSync(r *simkit.Run, c Cfg, mode string, planner planFunc) {
 			r.Violate(mode+".events", "error notification names %s, want %s", w.CidName(newEv[0].Cid), w.CidName(head))
 		}
 	} else if !r.Failed() {
+		if cfg.seg > 0 && r.Faults()["hook-fail"] > hookFail0 {
+			r.Violate(mode+".hookfail", "the block hook signalled failure (FailSync) during a segmented sync, but the sync reported success (latest-sync %s)", w.CidName(sub.Latest(pub)))
+		}
 		r.Probe("sync-survived-fault")
 		c04CheckSuccess(sw, mode, "faulty attempt that nevertheless succeeded", head, expected, sub.HooksSince(hook0), newEv, !cfg.announce)
 	}
